@@ -2,6 +2,7 @@ package main
 
 import (
 	"fmt"
+	"sort"
 	"go/token"
 	"go/types"
 	"strings"
@@ -216,4 +217,82 @@ func freshPointer(v ssa.Value, seen map[ssa.Value]bool) (bool, string) {
 		return true, "result of a call"
 	}
 	return false, "unrecognised origin " + v.String()
+}
+
+// c15RouteCriteriaImmutable (R6): evaluating a request never changes the route's metadata match criteria.
+// The criteria object returned by RouteEntry().MetadataMatchCriteria(cluster) is part of the route and shared by every
+// request on it. A method that rewrites it in place (computed: methods of the criteria implementation from which a store
+// into the receiver's fields is reachable, e.g. MergeMatchCriteria -> merge) makes one request's metadata stick to the
+// route: later requests are matched against criteria they never carried, miss their subset and fall back to hosts whose
+// metadata do not match. Clause: request-path code (pkg/proxy) calls no mutating method of api.MetadataMatchCriteria.
+func c15RouteCriteriaImmutable(c *Ctx) {
+	impl := c.Named("pkg/router", "MetadataMatchCriteriaImpl")
+	if impl == nil {
+		c.Unresolved("C15.R6", "router.MetadataMatchCriteriaImpl")
+		return
+	}
+	mutating := map[string]bool{}
+	ms := c.Prog.MethodSets.MethodSet(types.NewPointer(impl))
+	for i := 0; i < ms.Len(); i++ {
+		m := c.Prog.MethodValue(ms.At(i))
+		if m == nil || m.Blocks == nil {
+			continue
+		}
+		for f := range staticReach([]*ssa.Function{m}, "pkg/router") {
+			if f.Signature.Recv() == nil || !strings.HasSuffix(typeName(f.Signature.Recv().Type()), ".MetadataMatchCriteriaImpl") {
+				continue
+			}
+			recv := f.Params[0]
+			forEachInstr(f, false, func(_ *ssa.Function, in ssa.Instruction) {
+				if st, ok := in.(*ssa.Store); ok && rootOf(st.Addr) == ssa.Value(recv) {
+					mutating[m.Name()] = true
+				}
+			})
+		}
+	}
+	delete(mutating, "Swap") // sort.Interface, used only while the object is being built
+	if len(mutating) == 0 {
+		c.Unresolved("C15.R6", "mutating methods of MetadataMatchCriteriaImpl (found 0)")
+		return
+	}
+	var names []string
+	for n := range mutating {
+		names = append(names, n)
+	}
+	sort.Strings(names)
+	fn := c.M("pkg/proxy", "downStream", "MetadataMatchCriteria")
+	if fn == nil {
+		c.Unresolved("C15.R6", "downStream.MetadataMatchCriteria")
+		return
+	}
+	var bad ssa.Instruction
+	nCalls := 0
+	for _, f := range c.PkgFuncs("pkg/proxy") {
+		forEachInstr(f, false, func(_ *ssa.Function, in ssa.Instruction) {
+			ci, ok := in.(ssa.CallInstruction)
+			if !ok {
+				return
+			}
+			name := methodName(ci.Common())
+			isCrit := false
+			if ci.Common().IsInvoke() && strings.HasSuffix(ci.Common().Value.Type().String(), "MetadataMatchCriteria") {
+				isCrit = true
+			}
+			if callee := ci.Common().StaticCallee(); callee != nil && callee.Signature.Recv() != nil && strings.HasSuffix(typeName(callee.Signature.Recv().Type()), ".MetadataMatchCriteriaImpl") {
+				isCrit = true
+			}
+			if !isCrit {
+				return
+			}
+			nCalls++
+			if mutating[name] {
+				bad = in
+			}
+		})
+	}
+	pos := fn.Pos()
+	if bad != nil {
+		pos = bad.Pos()
+	}
+	c.Check("C15.R6", "pkg/proxy:route-criteria-not-mutated", pos, bad == nil && nCalls >= 1, fmt.Sprintf("request-path code only reads the route's criteria (mutating methods: %s)", strings.Join(names, ",")), "request-path code calls a method that rewrites the route's shared metadata match criteria in place: one request's metadata sticks to the route, later requests are matched against criteria they never carried and can be sent to hosts whose metadata do not match")
 }
